@@ -214,6 +214,33 @@ def gen_docs(ck, n, nitems):
     return docs
 
 
+def script(behs, offset=0):
+    lines = []
+    for i, beh in enumerate(behs):
+        lines.append("B %d" % (i + offset))
+        for st in beh:
+            toks = [st["a"]] + ["%s=%s" % (k, vlib.fmt_val(v)) for k, v in st["arg"].items()]
+            lines.append(" ".join(toks))
+    return "\n".join(lines) + "\n"
+
+
+def run_guarded(exe, behs, chunk=2000, max_faults=25, timeout=900):
+    """Feed the behaviours chunk by chunk; when crashes/hangs pile up (a defect that hits
+    nearly every input) stop early: the executed prefix is enough evidence and the run stays
+    short.  Returns (records, number of behaviours executed)."""
+    recs, done, faults = [], 0, 0
+    while done < len(behs):
+        part = behs[done:done + chunk]
+        r, _ = vlib.run_driver(exe, script(part, done), timeout=timeout)
+        recs += r
+        done += len(part)
+        faults += sum(1 for x in r if x.get("a") in ("Crash", "Hang"))
+        if faults >= max_faults:
+            break
+        chunk = min(chunk * 2, 20000)
+    return recs, done
+
+
 def render_docs(docs, tag):
     """TLC renders the seeded documents and computes the forests (Trace_ConfText, pass 1)."""
     tdir = vlib.ensure(os.path.join(vlib.WORK, "traces"))
@@ -270,8 +297,17 @@ def run(tier):
         raise vlib.MachineryError("rendered %d of %d seeded documents" % (len(behs2), len(docs)))
     allb = behs + behs2
 
-    recs, _ = vlib.run_driver(exe, vlib.to_script(allb), timeout=900)
-    mms = vlib.compare(allb, recs, match)
+    # the seeded documents first (production sizes), then the generated cases
+    order = behs2 + behs
+    recs, done = run_guarded(exe, order, chunk=500)
+    if done < len(order):
+        ck.notes["stopped_early_after"] = done
+    nseed = len(behs2)
+    for r in recs:                      # back to the numbering generated cases first
+        if r.get("b") is not None:
+            r["b"] = r["b"] - nseed if r["b"] >= nseed else r["b"] + len(behs)
+    executed = set(b - nseed if b >= nseed else b + len(behs) for b in range(done))
+    mms = [m for m in vlib.compare(allb, recs, match) if m["b"] in executed]
     per_sig = {}
     for mm in mms:
         st = allb[mm["b"]][mm["i"]]
@@ -288,7 +324,7 @@ def run(tier):
     events = []
     for k, doc in enumerate(docs):
         b = len(behs) + k
-        if b in bad or not by.get(b):
+        if b in bad or not by.get(b) or b not in executed:
             continue            # reported above (violation or known finding): cut here
         o = by[b][0].get("obs") or {}
         ev = {"a": "doc", "arg": dict(doc["arg"], text=behs2[k][0]["arg"]["text"]),
